@@ -704,6 +704,6 @@ func TestVerif_C44(t *testing.T) {
 		"specs carry no surrounding whitespace (NewCommitSpec trims, SplitAncestorSpec alone does not)")
 	defer recNames.Write(t)
 	defer recSpecs.Write(t)
-	vh.Check(t, "names", 8000, 6000, func(rt *rapid.T) { c44NamesCase(rt, recNames) })
-	vh.Check(t, "specs", 600, 400, func(rt *rapid.T) { c44SpecsCase(rt, recSpecs) })
+	vh.Check(t, "names", 5000, 4000, func(rt *rapid.T) { c44NamesCase(rt, recNames) })
+	vh.Check(t, "specs", 600, 250, func(rt *rapid.T) { c44SpecsCase(rt, recSpecs) })
 }
